@@ -21,7 +21,7 @@ func fetch(from, i interface{}, nilsafe bool) interface{} {
 
 	// Structures can be access through a pointer or through a value, when they
 	// are accessed through a pointer we don't want to copy them to a value.
-	if kind == reflect.Ptr && reflect.Indirect(v).Kind() == reflect.Struct {
+	for kind == reflect.Ptr {
 		v = reflect.Indirect(v)
 		kind = v.Kind()
 	}
@@ -35,14 +35,13 @@ func fetch(from, i interface{}, nilsafe bool) interface{} {
 		}
 
 	case reflect.Map:
-		value := v.MapIndex(reflect.ValueOf(i))
+		value := v.MapIndex(mapKey(v, i))
 		if value.IsValid() {
 			if value.CanInterface() {
 				return value.Interface()
 			}
 		} else {
-			elem := reflect.TypeOf(from).Elem()
-			return reflect.Zero(elem).Interface()
+			return reflect.Zero(v.Type().Elem()).Interface()
 		}
 
 	case reflect.Struct:
@@ -55,6 +54,15 @@ func fetch(from, i interface{}, nilsafe bool) interface{} {
 		panic(fmt.Sprintf("cannot fetch %v from %T", i, from))
 	}
 	return nil
+}
+
+// mapKey converts a string key to the map's (defined) string key type.
+func mapKey(m reflect.Value, i interface{}) reflect.Value {
+	key := reflect.ValueOf(i)
+	if kt := m.Type().Key(); key.IsValid() && key.Kind() == reflect.String && kt.Kind() == reflect.String && key.Type() != kt {
+		key = key.Convert(kt)
+	}
+	return key
 }
 
 func slice(array, from, to interface{}) interface{} {
@@ -105,15 +113,21 @@ func FetchFn(from interface{}, name string) reflect.Value {
 
 	switch d.Kind() {
 	case reflect.Map:
-		value := d.MapIndex(reflect.ValueOf(name))
+		value := d.MapIndex(mapKey(d, name))
 		if value.IsValid() && value.CanInterface() {
-			return value.Elem()
+			if value.Kind() == reflect.Interface {
+				value = value.Elem()
+			}
+			return value
 		}
 	case reflect.Struct:
 		// If struct has not method, maybe it has func field.
 		// To access this field we need dereference value.
 		value := d.FieldByName(name)
 		if value.IsValid() {
+			if value.Kind() == reflect.Interface {
+				value = value.Elem()
+			}
 			return value
 		}
 	}
